@@ -282,6 +282,16 @@ impl Value {
         match self {
             Value::F32(value) => Value::from_f32(value_type, value),
             Value::F64(value) => Value::from_f64(value_type, value),
+            // Signed integers must be converted to floating point as signed values.
+            Value::I8(_) | Value::I16(_) | Value::I32(_) | Value::I64(_)
+                if matches!(value_type, ValueType::F32 | ValueType::F64) =>
+            {
+                let value = self.to_u64(addr_mask)? as i64;
+                Ok(match value_type {
+                    ValueType::F32 => Value::F32(value as f32),
+                    _ => Value::F64(value as f64),
+                })
+            }
             _ => Value::from_u64(value_type, self.to_u64(addr_mask)?),
         }
     }
